@@ -61,7 +61,10 @@ P0 == [proto |-> "", conn |-> FALSE, out |-> "down", in |-> "down", sentExt |-> 
 Hello(pr) == [k |-> "hello", ext |-> IF (pr = "v13" \/ NDev = "extToOld") /\ (MyPartial \/ MyTest) THEN MyX ELSE NoX]
 Frame(k) == [k |-> k, ext |-> IF NDev = "extEveryRpc" /\ (MyPartial \/ MyTest) THEN MyX ELSE NoX]
 \* extensionsOnNewOutboundStream: both control messages have crossed
-Completed(s) == IF MyTest /\ s.rec.test THEN [s EXCEPT !.wire = Append(@, Frame("testx"))] ELSE s
+\* (the wire is cut at WireMax frames: what is dropped could only repeat what the invariants have seen)
+WireMax == 4
+Put(w, f) == IF Len(w) < WireMax THEN Append(w, f) ELSE w
+Completed(s) == IF MyTest /\ s.rec.test THEN [s EXCEPT !.wire = Put(@, Frame("testx"))] ELSE s
 OpenOut(s) == LET s1 == [s EXCEPT !.out = "up", !.wire = <<Hello(s.proto)>>, !.sentExt = (s.proto = "v13")]
               IN  IF s1.sentExt /\ s1.rec.has THEN Completed(s1) ELSE s1
 \* extensionsState.OnClosedOutboundStream behind gs.feature(Extensions, proto)
@@ -89,7 +92,9 @@ Recv(p, x, part, testx, req) ==
                                     !.rec = IF NDev = "recOverwrite" THEN RecFrom(x) ELSE @]
                      ELSE s
         s2 == IF first /\ s1.sentExt THEN Completed(s1) ELSE s1
-        toPM == part /\ s2.rec.partial /\ (MyPartial \/ NDev = "dispatchPeerOnly")
+        \* ideal: only a peer the node has an outbound stream to is known to the extension; the code as found
+        \* dispatches whenever the record says so (the state then outlives the connection: X04-F3)
+        toPM == part /\ s2.rec.partial /\ (MyPartial \/ NDev = "dispatchPeerOnly") /\ (NAsFound \/ s2.out = "up")
         s3 == [s2 EXCEPT !.pm = @ \/ (toPM /\ MyPartial), !.req = @ \/ req,
                          !.badDispatch = @ \/ (toPM /\ ~(MyPartial /\ s2.adv.partial))]
     IN  /\ s.in # "down" /\ s.misb < MaxMisb
@@ -117,14 +122,15 @@ PubPartial(p) ==
         found == ideal \/ (MyPartial /\ s.req)
         thru == IF NAsFound THEN found ELSE ideal
     IN  /\ s.out = "up" /\ MyPartial
-        /\ Set(p, IF thru THEN [s EXCEPT !.wire = Append(@, Frame("partial")), !.pm = TRUE, !.badPartial = @ \/ ~s.adv.partial] ELSE s)
+        /\ Set(p, IF thru THEN [s EXCEPT !.wire = Put(@, Frame("partial")), !.pm = TRUE, !.badPartial = @ \/ ~s.adv.partial] ELSE s)
         /\ UNCHANGED crashed /\ NLog(NL("ppub", p, "", NoX, FALSE, FALSE, FALSE))
 
-NCore == \E p \in NPeers :
+NCoreOf(XS) == \E p \in NPeers :
            \/ \E pr \in {"v13", "v12"} : Connect(p, pr)
-           \/ \E x \in Exts, part, req \in BOOLEAN : Recv(p, x, part, FALSE, req)
+           \/ \E x \in XS, part, req \in BOOLEAN : Recv(p, x, part, FALSE, req)
            \/ InDown(p) \/ InUp(p) \/ OutDown(p) \/ OutUp(p) \/ PubPartial(p)
            \/ \E b \in BOOLEAN : Disconnect(p, b)
+NCore == NCoreOf(Exts)
 NInit == ps = [p \in NPeers |-> P0] /\ crashed = FALSE /\ nhist = <<>>
 NNext == ~NRec /\ NCore
 NSpec == NInit /\ [][NNext]_nvars
@@ -145,7 +151,9 @@ P_X04_i == ~crashed /\ \A p \in NPeers : ~ps[p].badDispatch
 P_X04_k == \A p \in NPeers : ps[p].out = "down" => ~ps[p].pm
 
 (* ------------------------------------------------------------------ generator *)
-NGenNext == NRec /\ Len(nhist) < NMaxLen /\ NCore
+\* (the generator offers three of the five control messages: none, partial only, test only)
+GenExts == {NoX, [present |-> TRUE, partial |-> TRUE, test |-> FALSE], [present |-> TRUE, partial |-> FALSE, test |-> TRUE]}
+NGenNext == NRec /\ Len(nhist) < NMaxLen /\ NCoreOf(GenExts)
 NGenSpec == NInit /\ [][NGenNext]_nvars
 NEmit == (Len(nhist) = NMaxLen) => PrintT(<<"SCN", ToJson([evs |-> nhist])>>)
 =============================================================================
